@@ -82,7 +82,14 @@ namespace awkward {
     void null() { writer_.Null(); }
     void boolean(bool x) { writer_.Bool(x); }
     void integer(int64_t x) { writer_.Int64(x); }
-    void real(double x) { writer_.Double(x); }
+    void real(double x) {
+      if (!writer_.Double(x)) {
+        throw std::invalid_argument(
+          std::string("NaN and infinity can't be converted to JSON without"
+            " setting 'nan_string', 'infinity_string' and 'minus_infinity_string'")
+          + FILENAME(__LINE__));
+      }
+    }
     void complex(std::complex<double> x,
                  const char* complex_real_string,
                  const char* complex_imag_string) {
@@ -228,7 +235,14 @@ namespace awkward {
     void null() { writer_.Null(); }
     void boolean(bool x) { writer_.Bool(x); }
     void integer(int64_t x) { writer_.Int64(x); }
-    void real(double x) { writer_.Double(x); }
+    void real(double x) {
+      if (!writer_.Double(x)) {
+        throw std::invalid_argument(
+          std::string("NaN and infinity can't be converted to JSON without"
+            " setting 'nan_string', 'infinity_string' and 'minus_infinity_string'")
+          + FILENAME(__LINE__));
+      }
+    }
     void complex(std::complex<double> x,
                  const char* complex_real_string,
                  const char* complex_imag_string) {
@@ -378,7 +392,14 @@ namespace awkward {
     void null() { writer_.Null(); }
     void boolean(bool x) { writer_.Bool(x); }
     void integer(int64_t x) { writer_.Int64(x); }
-    void real(double x) { writer_.Double(x); }
+    void real(double x) {
+      if (!writer_.Double(x)) {
+        throw std::invalid_argument(
+          std::string("NaN and infinity can't be converted to JSON without"
+            " setting 'nan_string', 'infinity_string' and 'minus_infinity_string'")
+          + FILENAME(__LINE__));
+      }
+    }
     void complex(std::complex<double> x,
                  const char* complex_real_string,
                  const char* complex_imag_string) {
@@ -523,7 +544,14 @@ namespace awkward {
     void null() { writer_.Null(); }
     void boolean(bool x) { writer_.Bool(x); }
     void integer(int64_t x) { writer_.Int64(x); }
-    void real(double x) { writer_.Double(x); }
+    void real(double x) {
+      if (!writer_.Double(x)) {
+        throw std::invalid_argument(
+          std::string("NaN and infinity can't be converted to JSON without"
+            " setting 'nan_string', 'infinity_string' and 'minus_infinity_string'")
+          + FILENAME(__LINE__));
+      }
+    }
     void complex(std::complex<double> x,
                  const char* complex_real_string,
                  const char* complex_imag_string) {
